@@ -807,3 +807,67 @@ UNITS += list(_c15.UNITS)
 # un-setting the individual latent variables goes through the invalidating assignment (verified with the State probes of C12)
 from contracts import c12 as _c12
 UNITS += [foreign(_c12.UnsetIndividuals(), "c12")]
+
+
+# ------------------------------------------------------------------------------------------------
+# "an independent variable has no definition": the theory above (indep(n) -> compute() is None, no parents) is an ASSUMED
+# contract of leaspy.variables.specs; it is what turns a read needing an unset independent value into an input error.  It is
+# checked here on the function each concrete independent-variable class actually resolves to (an override in a sub-class is
+# what gets verified).
+def _indep_classes():
+    import leaspy.variables.specs as sp
+    out, todo = [], [sp.IndepVariable]
+    while todo:
+        c = todo.pop(0)
+        if c.__module__.startswith("leaspy.") and c not in out:
+            out.append(c)
+        todo += c.__subclasses__()
+    return out
+
+
+class IndepCompute(Spec):
+    """IndepVariable.compute(state) (as resolved on every independent-variable class of the library): returns None whatever the
+    state holds -- an independent variable is never answered with a default -- and reads / writes nothing."""
+    target = "leaspy.variables.specs:IndepVariable.compute"
+    var_class = "leaspy.variables.specs:IndepVariable"
+
+    def setup(self, cx, cfg):
+        cls = resolve(self.var_class)
+        me = SymObj(cls, {}, label="variable")
+        values = SMap(cx, NAME, VAL, "state._values")
+        return dict(args=(me, values), me=me)
+
+    def post(self, cx, st, out):
+        return [("returns None", z3.BoolVal(out.value is None))]
+
+    def frame(self, cx, st):
+        return []
+
+
+class IndepAncestors(Spec):
+    """IndepVariable.get_ancestors_names() (as resolved on every independent-variable class): the empty set."""
+    target = "leaspy.variables.specs:IndepVariable.get_ancestors_names"
+    var_class = "leaspy.variables.specs:IndepVariable"
+
+    def setup(self, cx, cfg):
+        me = SymObj(resolve(self.var_class), {}, label="variable")
+        return dict(args=(me,), me=me)
+
+    def post(self, cx, st, out):
+        v = out.value
+        return [("returns an empty frozenset", z3.BoolVal(isinstance(v, frozenset) and len(v) == 0))]
+
+    def frame(self, cx, st):
+        return []
+
+
+def _indep_units():
+    out = []
+    for c in _indep_classes():
+        q = f"{c.__module__}:{c.__qualname__}"
+        for base, meth in ((IndepCompute, "compute"), (IndepAncestors, "get_ancestors_names")):
+            out.append(type(f"{base.__name__}_{c.__name__}", (base,), dict(target=f"{q}.{meth}", var_class=q, __doc__=base.__doc__))())
+    return out
+
+
+UNITS += _indep_units()
